@@ -67,6 +67,12 @@ PROPS = {
                      "their tie-breaks advance the caller's generator; this is not counted as a violation"],
         explanation="RNG provenance: no global generator, random_state forwarded at every stochastic call site, default clustering seeded, "
                     "the caller's generator never drawn from by a query strategy; twin / repeat / global-seed runs at run time"),
+    "C07": dict(
+        units=[("contracts.multiannot", None)],
+        bounded=[("bounded/wrappers.py", "C07")],
+        trusted=[L2_BASE],
+        assumptions=["wrapped strategies must accept arbitrary index sets in the modes that offer labeled samples as candidates"],
+        explanation="base-class contracts of the multi-annotator validation / transformation; wrapper and IEThresh swept over the five candidate x annotator modes with a termination timer"),
     "C08": dict(
         units=[("contracts.pool_base", has("representation")), ("contracts.frames", has("F8"))],
         bounded=[("bounded/pool.py", "C08")],
@@ -75,7 +81,7 @@ PROPS = {
         explanation="base-class representation lemma (None vs unlabeled indices give equal validated tuples); paired queries at run time"),
     "C09": dict(
         units=[("contracts.frames", has("F4")), ("contracts.labels", None)],
-        bounded=[("bounded/pool.py", "C09"), ("bounded/labels.py", "C09")],
+        bounded=[("bounded/pool.py", "C09"), ("bounded/models.py", "C09")],
         trusted=[L1_BASE],
         assumptions=["two fits of a scikit-learn estimator on order-preservingly re-encoded labels agree (outside any contract here)"],
         explanation="every label-predicate call site passes the configured sentinel; encoder contracts; paired encodings at run time"),
@@ -89,6 +95,18 @@ PROPS = {
                      "np.quantile is uninterpreted for BalancedIncrementalQuantileFilter"],
         explanation="result-shape postconditions, 'update never raises on a query result' and per-iteration equivalence of update and query_by_utility "
                     "proved on the real bodies; chunkings compared at run time"),
+    "C11": dict(
+        units=[("contracts.classifiers", has("C11"))],
+        bounded=[("bounded/models.py", "C11")],
+        trusted=[L2_BASE],
+        assumptions=["kernel values / mixture responsibilities are non-negative", "AnnotatorLogisticRegression and the mixture model are numerical optimisers: bounded only"],
+        explanation="normalisation and decision contracts of the classifier base classes; all classifiers swept over training-set patterns, class orders and cost matrices"),
+    "C12": dict(
+        units=[("contracts.classifiers", has("C12"))],
+        bounded=[("bounded/models.py", "C12")],
+        trusted=[L2_BASE],
+        assumptions=["the wrapped estimator's fit is a function of its arguments (and permutation invariant)"],
+        explanation="fit contracts: the wrapped estimator is fitted on the labeled rows only; paired fits with / without / moved unlabeled rows and weights"),
     "C13": dict(
         units=[("contracts.frames", has("F1."))],
         bounded=[("bounded/stream_budget.py", "C13"), ("bounded/models.py", "C13")],
@@ -101,6 +119,24 @@ PROPS = {
         trusted=[L2_BASE],
         assumptions=["the client lemma transfers to a strategy exactly as far as its C01 contract is proved"],
         explanation="client lemma over the contract of query (C01 postcondition): exhaustion after ceil(u/b) rounds; full loops for all strategies at run time"),
+    "C15": dict(
+        units=[("contracts.regressors", None)],
+        bounded=[("bounded/models.py", "C15")],
+        trusted=[L2_BASE],
+        assumptions=["real arithmetic: kernel weights cannot underflow"],
+        explanation="predict / sample_y contracts of ProbabilisticRegressor and the conjugate update; all regressors swept over training sets, priors and query points"),
+    "C16": dict(
+        units=[("contracts.labels", None)],
+        bounded=[("bounded/labels.py", "C16")],
+        trusted=[L2_BASE],
+        assumptions=["numpy dtype promotion / casting is enumerated, not proved"],
+        explanation="predicate contracts; exhaustive finite enumeration dtype x sentinel x shape x pattern x container"),
+    "C17": dict(
+        units=[("contracts.aggregation", None)],
+        bounded=[("bounded/labels.py", "C17")],
+        trusted=[L2_BASE],
+        assumptions=["np.bincount and sklearn confusion_matrix count what they say"],
+        explanation="random label matrices against a triple-loop counting oracle, all encodings and normalisations"),
     "C18": dict(
         units=[("contracts.selection", None), ("contracts.lemmas", None)],
         bounded=[("bounded/selection.py", "C18")],
@@ -112,6 +148,18 @@ PROPS = {
                      "proportional mode: domain restricted to non-negative utilities", "+-inf are not modelled (real arithmetic)"],
         explanation="rand_argmax/rand_argmin proved from their bodies (1-D and axis=1); simple_batch proved against the contract of rand_argmax with "
                     "loop invariants and counting lemmas; reachability of every tied optimum; arrays of any dimensionality swept at run time"),
+    "C19": dict(
+        units=[("contracts.index_wrapper", None)],
+        bounded=[("bounded/wrappers.py", "C19")],
+        trusted=[L2_BASE],
+        assumptions=["native partial_fit of scikit-learn estimators is trusted"],
+        explanation="random operation sequences compared with an independently retrained copy; precomputed-kernel speed-up compared with the plain classifier"),
+    "C20": dict(
+        units=[("contracts.pool_wrappers", None)],
+        bounded=[("bounded/wrappers.py", "C20")],
+        trusted=[L2_BASE],
+        assumptions=["the parallel wrapper requires an inner strategy that scores candidate rows independently and deterministically"],
+        explanation="wrapped vs unwrapped queries for every compatible inner strategy, both exclude_non_subsample settings, int / float max_candidates, jobs 1..3"),
 }
 
 
